@@ -1079,7 +1079,7 @@ class MergeTreeInterp:
                 cname = dotted(e.args[1]) or unparse(e.args[1])
                 if getattr(self, "slot_class", None) is None:
                     self.slot_class = cname
-                return cname == self.slot_class
+                return cname == self.slot_class or cname.split(".")[-1] in getattr(self, "slot_ancestors", ())
             return UNK
         if d == "len":
             v = self.ev(e.args[0], env)
@@ -1194,17 +1194,41 @@ def rule_mergetree(ctx, nmax=None):
     policies = [("always true", lambda k: True), ("always false", lambda k: False), ("alternating", lambda k: k % 2 == 0),
                 ("alternating'", lambda k: k % 2 == 1), ("every third", lambda k: k % 3 == 0)]
     unknown_tests = set()
-    for n in range(1, nmax + 1):
+    # the sketches of one call are all of one class; the schedule is interpreted once per class the function's type dispatch
+    # asks about (a subclass answers for its ancestors too), so every dispatch arm is interpreted
+    asked = []
+    for c in walk_no_nested(pm.node):
+        if isinstance(c, ast.Call) and dotted(c.func) == "isinstance" and len(c.args) == 2:
+            for t in (c.args[1].elts if isinstance(c.args[1], ast.Tuple) else [c.args[1]]):
+                nm = dotted(t)
+                if nm and nm not in asked:
+                    asked.append(nm)
+    by_name = {}
+    for m in ctx.model.modules.values():
+        for cl in m.classes.values():
+            by_name.setdefault(cl.name, cl)
+    runs = []
+    for nm in asked or [None]:
+        cl = by_name.get(nm.split(".")[-1]) if nm else None
+        anc = tuple(c.name for c in cl.mro()[1:]) if cl is not None else ()
+        # a class asked about only after one of its ancestors takes the ancestor's arm: same schedule, skip
+        runs.append((nm, anc))
+    for n, (cname, anc) in [(n, r) for n in range(1, nmax + 1) for r in (runs if n <= 16 else runs[:1])]:
+        if und:
+            break
         for pi, (pname, pol) in enumerate(policies):
             it = MergeTreeInterp(pm, order, n)
             it.policy = pol
+            if cname is not None:
+                it.slot_class = cname
+                it.slot_ancestors = anc
             try:
                 res = it.run()
             except MTUndecided as u:
                 und.append((n, str(u)))
                 break
             except MTViolation as v:
-                fails.append((n, str(v) + ((" (data-dependent decisions `%s` resolved %s)" % ("`, `".join(sorted(it.unknown_tests)), pname)) if it.unknown_decisions else "")))
+                fails.append((n, ("[%s sketches] " % cname if cname else "") + str(v) + ((" (data-dependent decisions `%s` resolved %s)" % ("`, `".join(sorted(it.unknown_tests)), pname)) if it.unknown_decisions else "")))
                 break
             unknown_tests |= it.unknown_tests
             if not isinstance(res, Slot):
@@ -1221,8 +1245,6 @@ def rule_mergetree(ctx, nmax=None):
             rounds_seen[n] = it.rounds
             if not it.unknown_decisions:
                 break          # no data-dependent decision: one run decides this n
-        if und:
-            break
     if und:
         ctx.ob("mergetree", pm, pm.node, "parallel_merging schedule", "merge schedule interpretable", None, "n=%d: %s" % und[0])
         return
